@@ -7,6 +7,7 @@ CONSTANTS
     ColSets = {{"k", "x"}, {"x", "q"}}
     Kinds = {"time_course"}
     FailModes = {"intfail"}
+    NameSchemes = {"plain"}
     Y0s = {0, 9}
     Y0Again = FALSE
     MaxDur = 1
